@@ -210,7 +210,9 @@ def run_one(sc):
             os.environ["HOME"] = home
             parent = os.path.join(home, "reports", "2024")
         elif s["target0"] == "missingdir":
-            parent = os.path.join(root, "deep", "er")
+            # the nearest existing ancestor is an EMPTY directory of the caller's: it must still be there whatever happens
+            os.makedirs(os.path.join(root, "pre"))
+            parent = os.path.join(root, "pre", "deep", "er")
         else:
             parent = os.path.join(root, "out")
             os.makedirs(parent)
@@ -227,6 +229,8 @@ def run_one(sc):
             t = _sha(open(target, "rb").read()) if os.path.isfile(target) else ("DIR" if os.path.isdir(target) else "")
             beside = sorted(x for x in os.listdir(parent) if x != os.path.basename(target)) if os.path.isdir(parent) else []
             beside += ["cwd:" + x for x in sorted(os.listdir(cwd_dir))]       # nothing may appear in the working directory
+            if s["target0"] == "missingdir":
+                beside = ["ancestor:" + ("present" if os.path.isdir(os.path.join(root, "pre")) else "GONE")] + beside
             ntmp = len(os.listdir(priv))
             return {"target": t, "beside": beside, "tmp": ntmp}
         if s.get("prior", "none") == "export_edit":
